@@ -39,6 +39,9 @@ VALVE_TYPES = ['PRV', 'PSV', 'PBV', 'FCV', 'TCV', 'GPV']
 CURVE_TYPES = ['HEAD', 'EFFICIENCY', 'VOLUME', 'HEADLOSS']
 
 
+# appended to RULE in the evidence (vlib/runner.py)
+RULE_ADDENDUM = 'Added in rounds 4-5: end swaps through a transient self-loop and morph.reverse_link as operations; a directed strand-then-remove sequence on nodes that keep a source or a control; AND / OR condition trees over further nodes and links.'
+
 def n_cases(tier):
     return 400 if tier == 'quick' else 3000
 
